@@ -997,6 +997,8 @@ class Machine:
                     env[i.id] = self.icmp(i['pred'], a, b, bits, i)
         elif op in ('bitcast', 'trunc', 'zext', 'sext', 'ptrtoint', 'inttoptr', 'sitofp', 'uitofp', 'fptosi', 'fptoui', 'fpext',
                     'fptrunc', 'addrspacecast'):
+            if op in ('sitofp', 'sext', 'uitofp'):
+                self._widen_watch(fr, i)
             env[i.id] = self.cast(op, self.ref(fr, i.ops[0]), i)
         elif op in ('fadd', 'fsub', 'fmul', 'fdiv', 'frem', 'fneg'):
             vs = [self.ref(fr, o) for o in i.ops]
@@ -1089,6 +1091,40 @@ class Machine:
         else:
             raise Unsupported('opcode %s in %s at %s' % (op, f.name, i.loc))
         return None
+
+    def _widen_watch(self, fr, i):
+        """integer computed in a narrow type and then widened: the narrow operation must not have overflowed"""
+        r = i.ops[0]
+        if r.get('k') != 'i':
+            return
+        src = fr.f.instrs[r['v']]
+        if src.op not in ('shl', 'add', 'sub', 'mul') or src.ty.get('k') != 'int':
+            return
+        bits = src.ty['bits']
+        if bits >= 64:
+            return
+        a, b = self.ref(fr, src.ops[0]), self.ref(fr, src.ops[1])
+        if not (is_int(a) and is_int(b)):
+            return
+        sgn = i.op in ('sitofp', 'sext')
+        if sgn:
+            xa, xb = signed(a, bits), (signed(b, bits) if src.op != 'shl' else b)
+        else:
+            xa, xb = a & mask(bits), b & mask(bits)
+        if src.op == 'shl':
+            exact = xa << xb if xb < 4096 else None
+        elif src.op == 'add':
+            exact = xa + xb
+        elif src.op == 'sub':
+            exact = xa - xb
+        else:
+            exact = xa * xb
+        if exact is None:
+            return
+        lo, hi = (-(1 << (bits - 1)), (1 << (bits - 1)) - 1) if sgn else (0, (1 << bits) - 1)
+        if not (lo <= exact <= hi):
+            self.emit('X', None, 0, src.loc or i.loc,
+                      note='narrow-overflow: %s i%d of (%d, %d) = %d does not fit before %s' % (src.op, bits, xa, xb, exact, i.op))
 
     def _same(self, a, b):
         if is_int(a) and is_int(b):
